@@ -16,7 +16,7 @@ def main():
     rc, out = sh(f"git -C /repo worktree add -q --detach {wt} HEAD")
     assert rc == 0, out
     demos = [f for f in glob.glob(os.path.join(src, "demo*")) ]
-    place = meta["demo_placement"]
+    place = meta["demo_placement"].split()[0]
     dst = os.path.join(wt, place)
     os.makedirs(os.path.dirname(dst), exist_ok=True)
     # the demo file named in the placement (first demo.* by default)
